@@ -29,7 +29,7 @@ PROPS = {
              "reorder<CM / reverse CM>: permutation validity, B(i,j)=A(perm i,perm j) bitwise, forward/inverse/view, solution mapped back solves the original system (true residual, long double). "
              "scale_diagonal: entries s_i a_ij s_j within 8u, unit diagonal, both documented rhs options, post-scaled solution solves the original system in the scaled norm and (times cond(S)) in the 2-norm. "
              "Row order: preconditioner built from tape-shuffled rows vs built from sorted rows, apply() bitwise equal on 3 vectors at 1 thread, for amg over all 4 coarsenings x 9 relaxations (runtime interface, "
-             "coarse_enough 2/8/3000), as_preconditioner over 9 relaxations, make_solver (amg+cg, amg+bicgstab, relaxation+bicgstab; whole solve bitwise incl. iteration count), cpr, cpr_drs, "
+             "coarse_enough 2/8/3000), as_preconditioner over 9 relaxations, amg::rebuild(shuffled A') vs rebuild(sorted A') on two allow_rebuild hierarchies (same 4x9 space, gauss_seidel and the ILU family weighted up), make_solver (amg+cg, amg+bicgstab, relaxation+bicgstab; whole solve bitwise incl. iteration count), cpr, cpr_drs, "
              "schur_pressure_correction (inner solvers = one preconditioner application) on cell-structured systems b=2..4. "
              "non-trivial: at least one row with >=3 entries stored out of ascending column order (adapters: plus nnz>n; reorder/scale: n>=3 resp. badly scaled). "
              "distinct = distinct decoded choice sequences (64-bit hash), united over shards.",
